@@ -490,6 +490,7 @@ type Alias struct {
 type Specs struct {
 	Aliases     map[string]*Alias
 	Inline      map[string]bool
+	TypeInvs    map[string][]Clause
 	Contracts   map[string]*Contract
 	GhostFields map[string]*GhostField
 	GhostVars   map[string]*GhostVar
@@ -503,7 +504,7 @@ type Specs struct {
 
 func NewSpecs() *Specs {
 	return &Specs{Contracts: map[string]*Contract{}, GhostFields: map[string]*GhostField{},
-		GhostVars: map[string]*GhostVar{}, SpecFuncs: map[string]*SpecFunc{}, SharedTypes: map[string]bool{}, Aliases: map[string]*Alias{}, Inline: map[string]bool{}}
+		GhostVars: map[string]*GhostVar{}, SpecFuncs: map[string]*SpecFunc{}, SharedTypes: map[string]bool{}, Aliases: map[string]*Alias{}, Inline: map[string]bool{}, TypeInvs: map[string][]Clause{}}
 }
 
 func parseClause(rest string) (Clause, error) {
@@ -810,6 +811,17 @@ func (S *Specs) LoadFile(path string, extern bool) error {
 				return fail(err)
 			}
 			S.Lemmas = append(S.Lemmas, &Lemma{Name: c.Name, E: c.E, Src: c.Src, Props: append([]string{}, curProps...), File: path})
+		case "typeinv":
+			// typeinv pkg.Type: expr over self
+			i := strings.Index(rest, ": ")
+			if i < 0 {
+				return fail(fmt.Errorf("typeinv <type>: <expr>"))
+			}
+			c, err := parseClause(strings.TrimSpace(rest[i+2:]))
+			if err != nil {
+				return fail(err)
+			}
+			S.TypeInvs[rest[:i]] = append(S.TypeInvs[rest[:i]], c)
 		case "inline":
 			for _, t := range strings.Fields(rest) {
 				S.Inline[t] = true
